@@ -669,7 +669,7 @@ func (c *MConnection) stopPongTimer() {
 // maxPacketMsgSize returns a maximum size of PacketMsg
 func (c *MConnection) maxPacketMsgSize() int {
 	bz, err := proto.Marshal(mustWrapPacket(&kp2p.PacketMsg{
-		ChannelID: 0x01,
+		ChannelID: 0xff, // largest channel id: ids >= 0x80 need a two-byte varint
 		EOF:       true,
 		Data:      make([]byte, c.config.MaxPacketMsgPayloadSize),
 	}))
